@@ -255,13 +255,19 @@ Section LexAdv.
   Proof. intros. unfold abs_real, abs_real_gen. advO_tac. Qed.
   Lemma advO_abs_int_exp : forall o p0 ini, advO o (abs_int_exp d F p0 ini).
   Proof. intros. unfold abs_int_exp. advO_tac. Qed.
-  Lemma advO_abs_based : forall o p0 p1 ini, advO o (abs_based d F p0 p1 ini).
+  Lemma advO_abs_based : forall o dl p0 p1 ini, advO o (abs_based d F dl p0 p1 ini).
   Proof. intros. unfold abs_based. advO_tac. Qed.
+  Lemma advO_colon_starts_based_literal : forall o, advO o (colon_starts_based_literal d).
+  Proof.
+    intros o st r st' Ho H. unfold colon_starts_based_literal in H.
+    destruct (colon_lookahead d st) as [[[[n|]|e]|e|a] st1]; injection H as <- <-; exact Ho.
+  Qed.
   Lemma advO_abs_bit_string : forall o p0 ini, advO o (abs_bit_string d F p0 ini).
   Proof. intros. unfold abs_bit_string. advO_tac. Qed.
   Lemma advO_abs_plain : forall o ini, advO o (abs_plain ini).
   Proof. intros. unfold abs_plain. advO_tac. Qed.
-  Hint Resolve advO_abs_real advO_abs_int_exp advO_abs_based advO_abs_bit_string advO_abs_plain : adv_db.
+  Hint Resolve advO_abs_real advO_abs_int_exp advO_abs_based advO_abs_bit_string advO_abs_plain
+    advO_colon_starts_based_literal : adv_db.
   Lemma advO_parse_abstract_literal : forall o, advO o (parse_abstract_literal d F).
   Proof. intros. unfold parse_abstract_literal. advO_tac. Qed.
   Hint Resolve advO_parse_abstract_literal : adv_db.
@@ -299,7 +305,7 @@ End LexAdv.
   advO_leading_comments advO_trailing_comment advO_bs_second advO_parse_base_specifier
   advO_maybe_base_specifier advO_parse_bit_string advO_ident_loop advO_parse_basic_identifier_or_keyword
   advO_real_loop advO_parse_real_literal advO_abs_real advO_abs_int_exp advO_abs_based advO_abs_bit_string
-  advO_abs_plain advO_parse_abstract_literal advO_char_lookahead advO_parse_character_literal advO_simple
+  advO_abs_plain advO_colon_starts_based_literal advO_parse_abstract_literal advO_char_lookahead advO_parse_character_literal advO_simple
   advO_two advO_illegal advO_lift_kv advO_parse_token advO_until_nl : adv_db.
 
 (* ---------------------------------------------------------------------------------------- *)
@@ -602,13 +608,22 @@ Section LexNoFuel.
   Proof. intros. unfold abs_real, abs_real_gen. nofuel_tac. Qed.
   Lemma nofuel_abs_int_exp : forall p0 ini, nofuel (abs_int_exp d F p0 ini).
   Proof. intros. unfold abs_int_exp. nofuel_tac. Qed.
-  Lemma nofuel_abs_based : forall p0 p1 ini, nofuel (abs_based d F p0 p1 ini).
+  Lemma nofuel_abs_based : forall dl p0 p1 ini, nofuel (abs_based d F dl p0 p1 ini).
   Proof. intros. unfold abs_based. nofuel_tac. Qed.
+  Lemma nofuel_colon_lookahead : nofuel (colon_lookahead d).
+  Proof. unfold colon_lookahead. nofuel_tac. Qed.
+  Lemma nofuel_colon_starts_based_literal : nofuel (colon_starts_based_literal d).
+  Proof.
+    intros st st' H. unfold colon_starts_based_literal in H.
+    destruct (colon_lookahead d st) as [[[[n|]|e]|e|a] st1] eqn:E; try discriminate.
+    injection H as -> <-. eapply nofuel_colon_lookahead; exact E.
+  Qed.
   Lemma nofuel_abs_bit_string : forall p0 ini, nofuel (abs_bit_string d F p0 ini).
   Proof. intros. unfold abs_bit_string. nofuel_tac. Qed.
   Lemma nofuel_abs_plain : forall ini, nofuel (abs_plain ini).
   Proof. intros. unfold abs_plain. nofuel_tac. Qed.
-  Hint Resolve nofuel_abs_real nofuel_abs_int_exp nofuel_abs_based nofuel_abs_bit_string nofuel_abs_plain : nofuel_db.
+  Hint Resolve nofuel_abs_real nofuel_abs_int_exp nofuel_abs_based nofuel_abs_bit_string nofuel_abs_plain
+    nofuel_colon_starts_based_literal : nofuel_db.
   Lemma nofuel_parse_abstract_literal : nofuel (parse_abstract_literal d F).
   Proof. unfold parse_abstract_literal. nofuel_tac. Qed.
   Hint Resolve nofuel_parse_abstract_literal : nofuel_db.
@@ -646,7 +661,7 @@ End LexNoFuel.
   nofuel_leading_comments nofuel_trailing_comment nofuel_bs_second nofuel_parse_base_specifier
   nofuel_maybe_base_specifier nofuel_parse_bit_string nofuel_parse_basic_identifier_or_keyword
   nofuel_parse_real_literal nofuel_abs_real nofuel_abs_int_exp nofuel_abs_based nofuel_abs_bit_string
-  nofuel_abs_plain nofuel_parse_abstract_literal nofuel_parse_character_literal nofuel_simple nofuel_two
+  nofuel_abs_plain nofuel_colon_starts_based_literal nofuel_parse_abstract_literal nofuel_parse_character_literal nofuel_simple nofuel_two
   nofuel_illegal nofuel_lift_kv nofuel_parse_token nofuel_until_nl : nofuel_db.
 
 (* ---------------------------------------------------------------------------------------- *)
@@ -824,6 +839,7 @@ Section LexProgress.
         * destruct (c =? 46). { eapply abs_real_sadv; eassumption. }
           destruct (c =? 101). { eapply Hrest; [|exact H]. advs_tac. }
           destruct (c =? 35). { eapply Hrest; [|exact H]. advs_tac. }
+          destruct (c =? 58). { eapply Hrest; [|exact H]. advs_tac. }
           destruct (is_bs_letter c); (eapply Hrest; [|exact H]); advs_tac.
         * eapply Hrest; [|exact H]. advs_tac.
       + injection H as <- <-. exact S1.
